@@ -50,7 +50,7 @@ Definition qpkt_ok (l : list omsg) (x : qpkt) : Prop :=
 Record Inv (c : cfg) (s : sess) : Prop := mkInv {
   inv_m : InvM c s;
   inv_qidle : can_write s = true -> outq s = [];
-  inv_q : Forall (qpkt_ok (out s)) (outq s)
+  inv_q : sock s = true -> Forall (qpkt_ok (out s)) (outq s)
 }.
 
 Lemma inv_shape c s : Inv c s -> exists C U Q, shape c s C U Q.
@@ -255,17 +255,20 @@ Qed.
 (* the queue part of the invariant after one hand-over *)
 Lemma invq_send (s : sess) x l' :
   (can_write s = true -> outq s = []) ->
-  Forall (qpkt_ok l') (outq s) -> qpkt_ok l' x ->
-  (can_write s = true -> outq (fst (send s x)) = []) /\ Forall (qpkt_ok l') (outq (fst (send s x))).
+  (sock s = true -> Forall (qpkt_ok l') (outq s)) -> qpkt_ok l' x ->
+  (can_write s = true -> outq (fst (send s x)) = []) /\
+  (sock s = true -> Forall (qpkt_ok l') (outq (fst (send s x)))).
 Proof.
   intros Hi Hq Hx. rewrite send_outq. destruct (can_write s).
   - split; [reflexivity | constructor].
-  - split; [discriminate|]. apply Forall_app. split; [exact Hq | constructor; [exact Hx | constructor]].
+  - split; [discriminate|]. intros Hs. apply Forall_app. split; [exact (Hq Hs) | constructor; [exact Hx | constructor]].
 Qed.
 
 Lemma send_out s x : out (fst (send s x)) = out s.
 Proof. rewrite send_fst. reflexivity. Qed.
 Lemma send_can s x : can_write (fst (send s x)) = can_write s.
+Proof. rewrite send_fst. reflexivity. Qed.
+Lemma send_sock s x : sock (fst (send s x)) = sock s.
 Proof. rewrite send_fst. reflexivity. Qed.
 
 (* one hand-over of a packet that needs no witness keeps the invariant *)
@@ -273,7 +276,7 @@ Lemma inv_send_plain c s x : Inv c s -> plain x -> Inv c (fst (send s x)).
 Proof.
   intros [Im Hi Hq] Hx.
   destruct (invq_send s x (out s) Hi Hq (qpkt_ok_plain _ _ Hx)) as [H1 H2].
-  constructor; [apply invm_send; exact Im | rewrite send_can; exact H1 | rewrite send_out; exact H2].
+  constructor; [apply invm_send; exact Im | rewrite send_can; exact H1 | rewrite send_sock, send_out; exact H2].
 Qed.
 
 (* no packet in the queue refers to the message with this id *)
@@ -486,16 +489,17 @@ Proof.
   assert (Hgrow : forall st infl,
             (can_write (with_out (pub_s1 s) (out s ++ [pub_new s q st]) infl) = true ->
              outq (with_out (pub_s1 s) (out s ++ [pub_new s q st]) infl) = []) /\
-            Forall (qpkt_ok (out (with_out (pub_s1 s) (out s ++ [pub_new s q st]) infl)))
-                   (outq (with_out (pub_s1 s) (out s ++ [pub_new s q st]) infl))).
-  { intros st infl. split; [exact Hi|]. cbn [out with_out outq pub_s1].
-    eapply Forall_qpkt_ok_mono; [|exact Hq]. intros m Hm _. apply in_or_app. left. exact Hm. }
+            (sock (with_out (pub_s1 s) (out s ++ [pub_new s q st]) infl) = true ->
+             Forall (qpkt_ok (out (with_out (pub_s1 s) (out s ++ [pub_new s q st]) infl)))
+                   (outq (with_out (pub_s1 s) (out s ++ [pub_new s q st]) infl)))).
+  { intros st infl. split; [exact Hi|]. cbn [out with_out outq pub_s1 sock]. intros Hs.
+    eapply Forall_qpkt_ok_mono; [|exact (Hq Hs)]. intros m Hm _. apply in_or_app. left. exact Hm. }
   assert (Hs1 : (can_write (pub_s1 s) = true -> outq (pub_s1 s) = []) /\
-                Forall (qpkt_ok (out (pub_s1 s))) (outq (pub_s1 s))) by (split; assumption).
+                (sock (pub_s1 s) = true -> Forall (qpkt_ok (out (pub_s1 s))) (outq (pub_s1 s)))) by (split; assumption).
   constructor; [exact Im'| |]; clear Im'; rewrite publish_fst.
   - destruct (q =? 0).
-    { destruct (sock s); [|exact (proj1 Hs1)]. rewrite send_can.
-      apply (invq_send (pub_s1 s) _ (out s) Hi Hq). apply qpkt_ok_plain. reflexivity. }
+    { destruct (sock s) eqn:Hs; [|exact (proj1 Hs1)]. rewrite send_can.
+      apply (invq_send (pub_s1 s) _ (out s) Hi (fun _ => Hq eq_refl)). apply qpkt_ok_plain. reflexivity. }
     destruct ((c_maxq c >? 0) && (Z.of_nat (length (out s)) >=? c_maxq c)); [exact (proj1 Hs1)|].
     destruct (has_mid (mid_next (last_mid s)) (out s)); [exact (proj1 Hs1)|].
     destruct (window_free c (inflight s)); [|exact (proj1 (Hgrow _ _))].
@@ -505,13 +509,13 @@ Proof.
     exists (pub_new s q (wait_of q)). split; [apply in_or_app; right; left; reflexivity|].
     repeat split; reflexivity.
   - destruct (q =? 0).
-    { destruct (sock s); [|exact (proj2 Hs1)]. rewrite send_out.
-      apply (invq_send (pub_s1 s) _ (out s) Hi Hq). apply qpkt_ok_plain. reflexivity. }
+    { destruct (sock s) eqn:Hs; [|exact (proj2 Hs1)]. rewrite send_sock, send_out.
+      apply (invq_send (pub_s1 s) _ (out s) Hi (fun _ => Hq eq_refl)). apply qpkt_ok_plain. reflexivity. }
     destruct ((c_maxq c >? 0) && (Z.of_nat (length (out s)) >=? c_maxq c)); [exact (proj2 Hs1)|].
     destruct (has_mid (mid_next (last_mid s)) (out s)); [exact (proj2 Hs1)|].
     destruct (window_free c (inflight s)); [|exact (proj2 (Hgrow _ _))].
-    destruct (sock s); [|exact (proj2 (Hgrow _ _))].
-    rewrite send_out. destruct (Hgrow (wait_of q) (inflight s + 1)) as [G1 G2].
+    destruct (sock s) eqn:Hs; [|exact (proj2 (Hgrow _ _))].
+    rewrite send_sock, send_out. destruct (Hgrow (wait_of q) (inflight s + 1)) as [G1 G2].
     eapply (invq_send _ _ _ G1 G2). unfold qpkt_ok. cbn [q_pkt]. intros _.
     exists (pub_new s q (wait_of q)). split; [apply in_or_app; right; left; reflexivity|].
     repeat split; reflexivity.
@@ -570,7 +574,7 @@ Qed.
 Lemma inv_reconnect s ok : Inv c s -> Inv c (fst (do_reconnect c s ok)).
 Proof.
   intros I. constructor; [apply invm_reconnect; exact (inv_m _ _ I)| |]; rewrite reconnect_outq;
-    [reflexivity | constructor].
+    [reflexivity | intros _; constructor].
 Qed.
 
 (* ---- connection loss ---- *)
@@ -586,7 +590,7 @@ Proof.
   intros I. cbn [step]. destruct (sock s) eqn:Hs; cbn [fst]; [|assumption].
   destruct I as [[[C [U [Q Sh]]] Hnd Hso Htg Hqo Hca Hlm Hnt] Hi Hq].
   unfold with_sock. rewrite andb_false_r.
-  constructor; [|cbn; discriminate | exact Hq].
+  constructor; [|cbn; discriminate | cbn; discriminate].
   constructor; cbn; try assumption; try discriminate.
   exists C, U, Q. apply shape_sock_false. assumption.
 Qed.
@@ -654,7 +658,7 @@ Proof.
   destruct (on_publish_char s m (inv_m _ _ I) Hs Hck Hin Hw)
     as (C1 & C2 & Q & j & n & So & Se' & SQ & Hj & Hn & Hle & Hfull & E).
   rewrite E. cbn [fst]. clear E.
-  destruct I as [[_ Hnd Hso Htg Hqo Hca Hlm Hnt] Hi Hq].
+  destruct I as [[_ Hnd Hso Htg Hqo Hca Hlm Hnt] Hi Hq]. specialize (Hq Hs).
   set (o' := (C1 ++ C2) ++ map rel1 (firstn j Q) ++ skipn j Q).
   assert (Hsub : forall (P : omsg -> Prop), Forall P (out s) -> Forall P ((C1 ++ C2) ++ Q)).
   { intros P H. rewrite So in H. apply Forall_app in H as [H1 H2]. apply Forall_remove in H1.
@@ -700,7 +704,7 @@ Proof.
   - change (can_write (with_q (with_out s o' n) (fst (hand_all (conn s) (can_write s) (outq s) (map rel_pk (firstn j Q))))))
       with (can_write s).
     intros Hc. cbn [outq with_q]. rewrite (hand_all_fst _ _ _ _ Hi), Hc. reflexivity.
-  - cbn [out outq with_q with_out]. fold o'. rewrite (hand_all_fst _ _ _ _ Hi).
+  - intros _. cbn [out outq with_q with_out]. fold o'. rewrite (hand_all_fst _ _ _ _ Hi).
     destruct (can_write s); [constructor|]. apply Forall_app. split.
     + apply Forall_forall. intros x Hx.
       apply (qpkt_ok_except (o_mid m) (out s)); [exact (q_free_refers _ _ _ Hfree Hx)| |exact (proj1 (Forall_forall _ _) Hq x Hx)].
@@ -763,12 +767,12 @@ Proof.
   intros I Hs. destruct (rc =? 0) eqn:Erc.
   2:{ unfold do_rx. rewrite Hs. cbn [negb]. rewrite Erc. cbn [fst].
       destruct I as [[[C [U [Q Sh]]] Hnd Hso Htg Hqo Hca Hlm Hnt] Hi Hq].
-      unfold with_sock. cbn. constructor; [|cbn; discriminate | exact Hq].
+      unfold with_sock. cbn. constructor; [|cbn; discriminate | cbn; discriminate].
       constructor; cbn; try assumption; try discriminate.
       exists C, U, Q. apply (shape_sock_false s C U Q false _ _ Sh). }
   assert (rc = 0) by lia. subst rc.
   destruct (connack_char s r I Hs) as (C & Q & So & Sh & E). rewrite E. cbn [fst]. clear E.
-  destruct I as [[_ Hnd Hso Htg Hqo Hca Hlm Hnt] Hi Hq].
+  destruct I as [[_ Hnd Hso Htg Hqo Hca Hlm Hnt] Hi Hq]. specialize (Hq Hs).
   destruct Sh as [_ Si SC SU SQ Sm Sf Ss Se].
   assert (Hm : mids (map cl1 C ++ Q) = mids (C ++ Q)).
   { rewrite !mids_app. rewrite map_ext_mid by apply cl1_mid. reflexivity. }
@@ -790,7 +794,7 @@ Proof.
                               (fst (hand_all (conn s) (can_write s) (outq s) (flat_map cl_pk C)))))
       with (can_write s).
     intros Hc. cbn [outq with_q]. rewrite (hand_all_fst _ _ _ _ Hi), Hc. reflexivity.
-  - cbn [out outq with_q with_out]. rewrite (hand_all_fst _ _ _ _ Hi).
+  - intros _. cbn [out outq with_q with_out]. rewrite (hand_all_fst _ _ _ _ Hi).
     destruct (can_write s); [constructor|]. apply Forall_app. split.
     + eapply Forall_qpkt_ok_mono; [|exact Hq]. intros w Hwin Hww. rewrite So in Hwin.
       apply in_app_or in Hwin as [Hwin|Hwin].
@@ -807,12 +811,12 @@ Lemma inv_with_inm s i : Inv c s -> Inv c (with_inm s i).
 Proof. intros [Im Hi Hq]. constructor; [apply invm_with_inm; exact Im | exact Hi | exact Hq]. Qed.
 
 (* what conformance says about the queue when a final acknowledgement arrives *)
-Lemma conf_free s m : Inv c s -> In m (out s) ->
+Lemma conf_free s m : Inv c s -> sock s = true -> In m (out s) ->
   (o_st m = MsWaitPuback /\ q_has_pub (o_mid m) (outq s) = false) \/
   (o_st m = MsWaitPubcomp /\ q_has_rel (o_mid m) (outq s) = false) ->
   q_free (o_mid m) (outq s).
 Proof.
-  intros I Hin H. pose proof (inv_nodup _ _ I) as Hnd. pose proof (inv_q _ _ I) as Hq.
+  intros I Hs Hin H. pose proof (inv_nodup _ _ I) as Hnd. pose proof (inv_q _ _ I Hs) as Hq.
   destruct H as [[Hst Hp]|[Hst Hr]]; split; try assumption.
   - destruct (q_has_rel (o_mid m) (outq s)) eqn:E; [|reflexivity]. exfalso.
     apply q_has_rel_true in E as (x & t & Hx & Ex).
@@ -860,13 +864,13 @@ Proof.
   assert (Hnopub : forall x qs d t, In x (outq s) -> q_pkt x = PPublish mid qs d t -> qs <> 0 -> False).
   { intros x qs d t Hx Ex Hqs. destruct Hst as [[Hst Hp]|Hst].
     - exact (q_has_pub_false _ _ _ _ _ _ _ Hp Hx Ex Hqs eq_refl).
-    - pose proof (proj1 (Forall_forall _ _) (inv_q _ _ I) x Hx) as Hok. unfold qpkt_ok in Hok. rewrite Ex in Hok.
+    - pose proof (proj1 (Forall_forall _ _) (inv_q _ _ I Hs) x Hx) as Hok. unfold qpkt_ok in Hok. rewrite Ex in Hok.
       destruct (Hok Hqs) as (w & Hwi & H1 & H2 & H3 & H4 & H5).
       assert (w = m) by (eapply NoDup_mids_eq; [exact (inv_nodup _ _ I) | exact Hwi | exact Hin | congruence]). subst w.
       rewrite Hst in H5. unfold wait_of in H5. destruct (qs =? 1); discriminate. }
   assert (Hqold : Forall (qpkt_ok o') (outq s)).
   { apply Forall_forall. intros x Hx.
-    pose proof (proj1 (Forall_forall _ _) (inv_q _ _ I) x Hx) as Hok. unfold qpkt_ok in *.
+    pose proof (proj1 (Forall_forall _ _) (inv_q _ _ I Hs) x Hx) as Hok. unfold qpkt_ok in *.
     destruct (q_pkt x) as [|mi qs d t|mi t|mi|mi|mi] eqn:Ex; try exact Logic.I.
     - intros Hqs. destruct (Hok Hqs) as (w & Hwi & H1 & H2 & H3 & H4 & H5).
       exists w. split; [|tauto]. apply update_mid_other; [exact Hwi|].
@@ -908,8 +912,8 @@ Proof.
   assert (Hx : qpkt_ok o' (mkQ (PPubrel mid (o_tag m)) false)).
   { unfold qpkt_ok. cbn [q_pkt]. exists m'. split; [exact Hm'in|]. unfold m'. cbn. tauto. }
   destruct (invq_send (with_out s o' (inflight s)) (mkQ (PPubrel mid (o_tag m)) false) o'
-              (inv_qidle _ _ I) Hqold Hx) as [H1 H2].
-  constructor; [apply invm_send; exact Im' | rewrite send_can; exact H1 | rewrite send_out; exact H2].
+              (inv_qidle _ _ I) (fun _ => Hqold) Hx) as [H1 H2].
+  constructor; [apply invm_send; exact Im' | rewrite send_can; exact H1 | rewrite send_sock, send_out; exact H2].
 Qed.
 
 (* ---- one inbound packet ---- *)
@@ -930,7 +934,7 @@ Proof.
     pose proof (inv_on_publish s m I Hs Hck Hin) as H.
     destruct (do_on_publish c s m) as [s' ev] eqn:Ed. cbn [fst] in *.
     apply H; [unfold is_wait; rewrite Hst'; reflexivity|].
-    apply conf_free; [exact I | exact Hin|]. left. split; [exact Hst'|]. destruct (q_has_pub (o_mid m) (outq s)); [discriminate|reflexivity].
+    apply conf_free; [exact I | exact Hs | exact Hin|]. left. split; [exact Hst'|]. destruct (q_has_pub (o_mid m) (outq s)); [discriminate|reflexivity].
   - (* PUBREC *)
     unfold do_rx. rewrite Hs. cbn [negb].
     destruct (find_mid mid (out s)) as [m|] eqn:Ef; [|cbn [fst]; exact I].
@@ -949,7 +953,7 @@ Proof.
     pose proof (inv_on_publish s m I Hs Hck Hin) as H.
     destruct (do_on_publish c s m) as [s' ev] eqn:Ed. cbn [fst] in *.
     apply H; [unfold is_wait; rewrite Hst'; reflexivity|].
-    apply conf_free; [exact I | exact Hin|]. right. split; [exact Hst'|]. destruct (q_has_rel (o_mid m) (outq s)); [discriminate|reflexivity].
+    apply conf_free; [exact I | exact Hs | exact Hin|]. right. split; [exact Hst'|]. destruct (q_has_rel (o_mid m) (outq s)); [discriminate|reflexivity].
   - (* PUBREL *)
     unfold do_rx. rewrite Hs. cbn [negb].
     destruct (in_find mid (inm s)) as [tag|].
@@ -980,11 +984,11 @@ Qed.
 
 Lemma inv_block s b : Inv c s -> Inv c (fst (do_block s b)).
 Proof.
-  intros [Im Hi Hq]. unfold do_block. destruct (sock s) eqn:Hs; [|constructor; assumption].
+  intros [Im Hi Hq]. unfold do_block. destruct (sock s) eqn:Hs; [|constructor; [assumption | assumption | cbn [fst]; intros Hs'; congruence]].
   destruct b; cbn [fst lw].
-  - constructor; [revert Im; apply invm_ext; reflexivity | | exact Hq].
+  - constructor; [revert Im; apply invm_ext; reflexivity | | intros _; exact (Hq eq_refl)].
     unfold can_write. cbn. rewrite andb_false_r. discriminate.
-  - constructor; [revert Im; apply invm_ext; reflexivity | reflexivity | constructor].
+  - constructor; [revert Im; apply invm_ext; reflexivity | reflexivity | intros _; constructor].
 Qed.
 
 Theorem inv_step s o : Inv c s -> conf_op c s o = true -> Inv c (fst (step c s o)).
